@@ -73,8 +73,9 @@ var props = map[string]propCfg{
 		Modules: []string{"fc"},
 		Decided: []string{
 			"exaustiveCheck(ttype, arms): when ttype is a union, it panics (the diagnostic path) if and only if the union's info is missing or some case of the union is named by no arm - for unions of any size, any arm order, duplicate arms, arms naming unknown cases",
+			"routing (parseURules): a match returned without a default arm has been through exaustiveCheck with exactly its arms (so it covers every case); a default arm is accepted only when the next arm is inside the enclosing offside and is `| _`",
 		},
-		NotDecided: []string{"that parseURules routes every default-less match through exaustiveCheck and that a match whose target is not yet known to be a union never reaches it (read, not proved)", "the emitted 'never reached' panic being unreachable in accepted programs (a C01-level consequence)"},
+		NotDecided: []string{"that a match whose target is not yet known to be a union never reaches exaustiveCheck (read, not proved); parseUnionMatchRules (which arms belong to the match) is abstract", "the emitted 'never reached' panic being unreachable in accepted programs (a C01-level consequence)"},
 	},
 	"C08": {
 		Modules: []string{"fc"},
@@ -85,7 +86,7 @@ var props = map[string]propCfg{
 			"precedence climbing for chains of ANY length (parseBinAfter / parseExprWithPrec / parseExpr, ghost ranks + ghost flag wg): every node is built with rank(left) >= rank(op) and rank(right) > rank(op) - the published table with left association -, each call returns an expression of rank >= its minimum and stops before an operator of rank >= its minimum; recursion and the function-typed parameter are discharged modularly (the function's own contract is the induction hypothesis)",
 		},
 		NotDecided: []string{"that operands appear in source order without loss (needs a token-list ghost); application binds tighter / prefix not applies to the following application (parseTerm, parseAtomList are abstract operands of rank 100 here)"},
-		Scans: []func(*run){scanBinOpTable, scanBinOpCallSites},
+		Scans: []func(*run){scanBinOpTable, scanBinOpCallSites, scanNotOperand},
 	},
 	"C05": {
 		Modules: []string{"fc"},
